@@ -1382,7 +1382,7 @@ class TensorTerm(SplineTerm, MetaTermMixin):
             splines = tensor_product(splines, marginal_splines)
 
         if self.by is not None:
-            splines *= X[:, self.by][:, np.newaxis]
+            splines = splines * X[:, self.by][:, np.newaxis]
 
         return sp.sparse.csc_matrix(splines)
 
